@@ -159,7 +159,7 @@ func (fc *FnCtx) trCall(st *State, call *ast.CallExpr) []Val {
 			return nil
 		}
 		switch fn.Name() {
-		case "forall", "exists", "implies", "ite", "iteS", "byteStr", "reMatch", "reGroup", "itoa", "reMatchDyn", "reSpan", "reAny":
+		case "forall", "exists", "implies", "ite", "iteS", "byteStr", "reMatch", "reGroup", "itoa", "reMatchDyn", "reSpan", "reAny", "reReplace":
 			return []Val{fc.trHelper(st, fn.Name(), call)}
 		}
 	}
@@ -499,7 +499,7 @@ func (fc *FnCtx) trContractCall(st *State, call *ast.CallExpr) Val {
 		v := fc.tr(tmp, call.Args[0])
 		st.assume = tmp.assume
 		return v
-	case "implies", "ite", "iteS", "forall", "exists", "byteStr", "reMatch", "reGroup", "itoa", "reMatchDyn", "reSpan", "reAny":
+	case "implies", "ite", "iteS", "forall", "exists", "byteStr", "reMatch", "reGroup", "itoa", "reMatchDyn", "reSpan", "reAny", "reReplace":
 		return fc.trHelper(st, name, call)
 	}
 	return fc.trContractCall2(st, call, name)
@@ -531,7 +531,7 @@ func (fc *FnCtx) trHelper(st *State, name string, call *ast.CallExpr) Val {
 		v := fc.tr(st, call.Args[1])
 		fc.w.needDynRe = true
 		return boolVal("(rematchdyn " + p.T + " " + v.T + ")")
-	case "reMatch", "reGroup":
+	case "reMatch", "reGroup", "reReplace":
 		// first argument names a package-level regex variable: resolved to its literal
 		lit := ""
 		switch a := call.Args[0].(type) {
@@ -552,6 +552,10 @@ func (fc *FnCtx) trHelper(st *State, name string, call *ast.CallExpr) Val {
 		s := fc.tr(st, call.Args[1])
 		if name == "reMatch" {
 			return boolVal("(rematch_" + id + " " + s.T + ")")
+		}
+		if name == "reReplace" {
+			t := fc.tr(st, call.Args[2])
+			return Val{T: "(rereplace_" + id + " " + s.T + " " + t.T + ")", S: SStr}
 		}
 		bl, _ := call.Args[2].(*ast.BasicLit)
 		if bl == nil {
